@@ -2,7 +2,7 @@
    verdict : re-runs the model on the exported input and compares it with the DataFrame the
    implementation produced (tags 1..4), evaluates the property itself — the implementation's result
    on the columns NM-TRAN keeps equals the reference reader's — (tag 11), and reports which guard
-   conjuncts are false (tags 201..209).
+   conjuncts are false (tags 201..208).
    cycle_verdict : the write/read oracle (tags 21..23).
    Numbers: the model and the reference compute the EXACT rational value of a decimal item; the
    implementation's cell is a double exported as an exact rational.  They are related by
